@@ -1,8 +1,7 @@
 import Restli.Lib.Basic
 import Restli.Gen.Tables
 /-! `restlicodec.PathSpec`: `NewPathSpec` (a trie of slash-separated directives) and
-`genericMatches`, transliterated — including the stale `p0` after a `$set`/`$delete` segment is
-skipped. -/
+`genericMatches`, transliterated. -/
 namespace Restli.Codec
 
 inductive PathSpec where
@@ -77,7 +76,7 @@ def gmatches : PathSpec → List Bytes → MatchRes
           (m Gen.wildCard).or (fun _ => m p0)
       | p0 :: p1 :: rest =>
         if p0 == setKey || p0 == deleteKey then
-          -- `path = path[1:]`, but `p0` still holds the operator: the segment `p1` is never compared
+          -- `path = path[1:]; p0 = extract(path[0])` (after the repair): `p1` is what is matched
           let m (s : Bytes) : MatchRes :=
             match lookupSpec cs s with
             | none => .no
@@ -85,7 +84,7 @@ def gmatches : PathSpec → List Bytes → MatchRes
               if sub.isEmpty then .yes
               else if rest.isEmpty then .no
               else gmatches (.node sub) rest
-          (m Gen.wildCard).or (fun _ => m p0)
+          (m Gen.wildCard).or (fun _ => m p1)
         else
           let m (s : Bytes) : MatchRes :=
             match lookupSpec cs s with
